@@ -692,7 +692,11 @@ theorem affInv_runQ (fuel : Nat) (w : W) (h : AffInv w) : AffInv (W.runQ fuel w)
     | some w' => simp only; exact ih _ (affInv_loopStep w w' h hl)
     | none =>
       simp only
-      have hs : AffInv { w with env := w.env.settle } := h.of_pool rfl rfl
+      have hs : AffInv (W.tryFinishStop { w with env := w.env.settle }) := by
+        unfold W.tryFinishStop
+        split
+        · exact h.of_pool rfl rfl
+        · exact h.of_pool rfl rfl
       split
       · exact hs
       · exact ih _ hs
